@@ -9,6 +9,7 @@ import (
 	"fmt"
 	"go/ast"
 	"go/format"
+	"go/parser"
 	"go/token"
 	"go/types"
 	"os"
@@ -159,35 +160,82 @@ func (r *rewriter) rewriteGo(g *ast.GoStmt) ast.Stmt {
 	return &ast.BlockStmt{List: pre}
 }
 
+// injections: statements added at the start of named functions ("return db" hooks are
+// handled separately for dkv.New). The called helpers live in overlay-added files.
+var injections = []struct{ pkg, fn, code string }{
+	{"reduction.dev/reduction/dkv", "New", "verifTuneOptions(&options)"},
+	{"reduction.dev/reduction/dkv/storage", "NewFileSystemFromLocation", "if vfs, ok := verifLookupFS(location); ok { return vfs, nil }"},
+}
+
+func parseStmts(code string) []ast.Stmt {
+	f, err := parser.ParseFile(token.NewFileSet(), "", "package p\nfunc _() {\n"+code+"\n}", 0)
+	if err != nil {
+		panic("instr: bad injection snippet: " + err.Error())
+	}
+	return f.Decls[0].(*ast.FuncDecl).Body.List
+}
+
+// stripPos clears positions so that the printer lays the injected nodes out afresh.
+func stripPos(n ast.Node) {
+	ast.Inspect(n, func(x ast.Node) bool {
+		switch v := x.(type) {
+		case *ast.Ident:
+			v.NamePos = 0
+		case *ast.BasicLit:
+			v.ValuePos = 0
+		case *ast.CallExpr:
+			v.Lparen, v.Rparen = 0, 0
+		case *ast.IfStmt:
+			v.If = 0
+		case *ast.BlockStmt:
+			v.Lbrace, v.Rbrace = 0, 0
+		case *ast.ReturnStmt:
+			v.Return = 0
+		case *ast.AssignStmt:
+			v.TokPos = 0
+		case *ast.UnaryExpr:
+			v.OpPos = 0
+		}
+		return true
+	})
+}
+
 // inject adds verification hook calls into named functions.
 func (r *rewriter) inject() {
-	if r.pkg.PkgPath != "reduction.dev/reduction/dkv" {
-		return
-	}
 	for _, d := range r.file.Decls {
 		fd, ok := d.(*ast.FuncDecl)
-		if !ok || fd.Recv != nil || fd.Name.Name != "New" || fd.Body == nil {
+		if !ok || fd.Recv != nil || fd.Body == nil {
 			continue
 		}
-		call := func(fn string, arg ast.Expr) ast.Stmt {
-			return &ast.ExprStmt{X: &ast.CallExpr{Fun: ast.NewIdent(fn), Args: []ast.Expr{arg}}}
-		}
-		body := []ast.Stmt{call("verifTuneOptions", &ast.UnaryExpr{Op: token.AND, X: ast.NewIdent("options")})}
-		injectedRet := false
-		for _, st := range fd.Body.List {
-			if ret, ok := st.(*ast.ReturnStmt); ok && len(ret.Results) == 1 {
-				if id, ok := ret.Results[0].(*ast.Ident); ok && id.Name == "db" {
-					body = append(body, call("verifTuneDB", ast.NewIdent("db")))
-					injectedRet = true
-				}
+		for _, inj := range injections {
+			if inj.pkg != r.pkg.PkgPath || inj.fn != fd.Name.Name {
+				continue
 			}
-			body = append(body, st)
+			stmts := parseStmts(inj.code)
+			for _, st := range stmts {
+				stripPos(st)
+			}
+			body := append(stmts, fd.Body.List...)
+			if inj.pkg == "reduction.dev/reduction/dkv" && inj.fn == "New" {
+				injectedRet := false
+				var nb []ast.Stmt
+				for _, st := range body {
+					if ret, ok := st.(*ast.ReturnStmt); ok && len(ret.Results) == 1 {
+						if id, ok := ret.Results[0].(*ast.Ident); ok && id.Name == "db" {
+							nb = append(nb, &ast.ExprStmt{X: &ast.CallExpr{Fun: ast.NewIdent("verifTuneDB"), Args: []ast.Expr{ast.NewIdent("db")}}})
+							injectedRet = true
+						}
+					}
+					nb = append(nb, st)
+				}
+				if !injectedRet {
+					panic("instr: dkv.New has no `return db` to hook")
+				}
+				body = nb
+			}
+			fd.Body.List = body
+			r.injected = true
 		}
-		if !injectedRet {
-			panic("instr: dkv.New has no `return db` to hook")
-		}
-		fd.Body.List = body
-		r.injected = true
 	}
 }
 
